@@ -9,17 +9,18 @@ namespace SymbolVerif.Codec
 open SymbolVerif.Bytes
 
 /-- the relation after a member got its local -/
-theorem Sim.snoc {σ σ' : PyState} {st st' : DecState} {pre : List Field} {f : Field} {v : Val} (h : Sim σ st pre)
+theorem Sim.snoc {σ σ' : PyState} {st st' : DecState} {hid pre : List Field} {f : Field} {v : Val} (h : Sim σ st hid pre)
     (henv : st'.env = st.env ++ [(f.name, v)]) (hbuf : σ'.buffer = st'.buf)
     (hold : ∀ x ∈ pre, σ'.get (localName x) = σ.get (localName x))
-    (hnew : σ'.get (localName f) = some v) (hne : ∀ x ∈ pre, x.name ≠ f.name)
-    (hnn : f.kind.isBoundSize = true → ∀ i, v = .int i → 0 ≤ i) : Sim σ' st' (pre ++ [f]) := by
+    (hnew : σ'.get (localName f) = some v) (hne' : ∀ x ∈ hid ++ pre, x.name ≠ f.name)
+    (hnn : f.kind.isBoundSize = true → ∀ i, v = .int i → 0 ≤ i) : Sim σ' st' hid (pre ++ [f]) := by
+  have hne : ∀ x ∈ pre, x.name ≠ f.name := fun x hx => hne' x (List.mem_append_right _ hx)
   have hnone : Val.get st.env f.name = none := by
     apply get_none_of_names
     intro nv hnv
     obtain ⟨x, hx, hxn⟩ := h.names nv hnv
     rw [← hxn]
-    exact hne x hx
+    exact hne' x hx
   have hgetf : Val.get st'.env f.name = some v := by
     rw [henv, get_append_none hnone]; simp [Val.get]
   refine ⟨hbuf, ?_, ?_, ?_, ?_⟩
@@ -75,7 +76,7 @@ theorem Sim.snoc {σ σ' : PyState} {st st' : DecState} {pre : List Field} {f : 
     rw [henv] at hnv
     rcases List.mem_append.mp hnv with hnv | hnv
     · obtain ⟨x, hx, hxn⟩ := h.names nv hnv
-      exact ⟨x, List.mem_append_left _ hx, hxn⟩
+      exact ⟨x, by rw [← List.append_assoc]; exact List.mem_append_left _ hx, hxn⟩
     · simp only [List.mem_singleton] at hnv
       subst hnv
       exact ⟨f, by simp, rfl⟩
@@ -120,16 +121,30 @@ theorem payload_bound {env : List (String × Val)} {f : Field} {view : Bytes} {v
     rw [← hi]; exact decInt_unsigned_nonneg w view
   | _ => simp [hk, FK.isBoundSize] at hb
 
+/-- assigning one local (and the buffer) leaves the other locals alone -/
+theorem frame_set (σ : PyState) (l : String) (v : Val) (b : Bytes) (n : String) (h : n ≠ l) :
+    ({ σ.set l v with buffer := b } : PyState).get n = σ.get n := by
+  show (σ.set l v).get n = σ.get n
+  rw [PyState.get_set]
+  have : (l == n) = false := by simp only [beq_eq_false_iff_ne, ne_eq]; exact fun hh => h hh.symm
+  simp [this]
+
+theorem frame_set' (σ : PyState) (l : String) (v : Val) (n : String) (h : n ≠ l) : (σ.set l v).get n = σ.get n := by
+  rw [PyState.get_set]
+  have : (l == n) = false := by simp only [beq_eq_false_iff_ne, ne_eq]; exact fun hh => h hh.symm
+  simp [this]
+
 /-- an unconditional member (nothing parked): the emitted statements do what `decFieldStep` does -/
-theorem plain_sim {σ : PyState} {st st' : DecState} {pre : List Field} (hS : Sim σ st pre) (hq : st.queued = [])
+theorem plain_sim {σ : PyState} {st st' : DecState} {hid pre : List Field} (hS : Sim σ st hid pre) (hq : st.queued = [])
     (hnn : ∀ ty b v, r.dec ty b = .ok v → v ≠ .none)
-    {f : Field} (hc : f.cond = none) (hfresh : ∀ x ∈ pre, localName x ≠ localName f) (hne : ∀ x ∈ pre, x.name ≠ f.name)
-    {isLast : Bool} (hwf : wfFieldAt S d pre f isLast = true) (hg : wfgdKind f = true)
+    {f : Field} (hc : f.cond = none) (hfresh : ∀ x ∈ pre, localName x ≠ localName f) (hne : ∀ x ∈ hid ++ pre, x.name ≠ f.name)
+    (hvis : ∀ n ∈ refsOf f, ∀ x ∈ hid, x.name ≠ n)
+    {isLast : Bool} (hwf : wfFieldAt S d (hid ++ pre) f isLast = true) (hg : wfgdKind f = true)
     {sm : Option String} (hsm : (sm == some (printerName f.name)) = true ↔ ∃ w, f.kind = .sizeF w)
     {d' : StructDef} {idx : Nat} (hreb : rebase d' st idx = st)
     (hstep : decFieldStep S T r d' st idx f = .ok st') :
-    ∃ σ', (desFieldAst S d sm f none).exec S T r σ = .ok σ' ∧ Sim σ' st' (pre ++ [f]) ∧ st'.queued = [] ∧
-      σ'.bufs = σ.bufs := by
+    ∃ σ', (desFieldAst S d sm f none).exec S T r σ = .ok σ' ∧ Sim σ' st' hid (pre ++ [f]) ∧ st'.queued = [] ∧
+      σ'.bufs = σ.bufs ∧ (∀ n, n ≠ localName f → σ'.get n = σ.get n) := by
   unfold decFieldStep at hstep
   simp only [hreb, hc] at hstep
   unfold decPlainField at hstep
@@ -141,7 +156,7 @@ theorem plain_sim {σ : PyState} {st st' : DecState} {pre : List Field} (hS : Si
   unfold DesField.exec desFieldAst
   simp only [localCondAst, hc, Option.getD_none]
   -- the load and the slice bound
-  obtain ⟨hload, hadv⟩ := payload_sim (T := T) hS hnn hfresh hwf hg (src := srcOf f "buffer")
+  obtain ⟨hload, hadv⟩ := payload_sim (T := T) hS hnn hfresh hvis hwf hg (src := srcOf f "buffer")
     (by intro ty l hk; simp [srcOf, hk]) (by intro ty hk; simp [srcOf, hk]) hpay
   have hbound := fun hb => payload_bound hpay hg hb
   by_cases hsz : ∃ w, f.kind = .sizeF w
@@ -155,7 +170,7 @@ theorem plain_sim {σ : PyState} {st st' : DecState} {pre : List Field} (hS : Si
     obtain ⟨rfl, rfl⟩ := hv
     have h0 := decInt_unsigned_nonneg adv st.buf
     refine ⟨{ σ.set (localName f) (.int (decInt adv false st.buf)) with
-        buffer := (st.buf.take (decInt adv false st.buf).toNat).drop adv }, ?_, ?_, ?_, rfl⟩
+        buffer := (st.buf.take (decInt adv false st.buf).toNat).drop adv }, ?_, ?_, ?_, rfl, fun n hn => frame_set _ _ _ _ _ hn⟩
     · simp only [localName] at hadv
       simp only [hsm', if_true, extraOf, hk, List.append_nil, execStmts, DesStmt.exec, hload, bind, Except.bind,
         PyState.getBuf_buffer, hadv]
@@ -185,7 +200,7 @@ theorem plain_sim {σ : PyState} {st st' : DecState} {pre : List Field} (hS : Si
       | false => rfl
       | true => exact absurd (hsm.mp h) hsz
     have hnsz : ∀ w, f.kind ≠ .sizeF w := fun w h => hsz ⟨w, h⟩
-    refine ⟨{ σ.set (localName f) v with buffer := st.buf.drop adv }, ?_, ?_, ?_, rfl⟩
+    refine ⟨{ σ.set (localName f) v with buffer := st.buf.drop adv }, ?_, ?_, ?_, rfl, fun n hn => frame_set _ _ _ _ _ hn⟩
     · simp only [hsm', Bool.false_eq_true, if_false]
       have hcore : execStmts S T r
           [DesStmt.assign (fixSizeName (printerName f.name)) (loadAst S f (srcOf f "buffer")),
@@ -247,17 +262,17 @@ theorem plain_sim {σ : PyState} {st st' : DecState} {pre : List Field} (hS : Si
     · rw [afterPlain_queued]; exact hq
 
 /-- a conditional member whose discriminant has been read (nothing parked) -/
-theorem cond_sim {σ : PyState} {st st' : DecState} {pre : List Field} (hS : Sim σ st pre)
+theorem cond_sim {σ : PyState} {st st' : DecState} {hid pre : List Field} (hS : Sim σ st hid pre)
     (hnn : ∀ ty b v, r.dec ty b = .ok v → v ≠ .none)
     {f : Field} {c : Cond} (hc : f.cond = some c) (hfresh : ∀ x ∈ pre, localName x ≠ localName f)
-    (hne : ∀ x ∈ pre, x.name ≠ f.name)
-    {isLast : Bool} (hwf : wfFieldAt S d pre f isLast = true) (hg : wfgdKind f = true) (hgc : wfgdCond S d f = true)
-    (hearly : refOk pre c.field (discKindOk c) = true)
+    (hne : ∀ x ∈ hid ++ pre, x.name ≠ f.name) (hvis : ∀ n ∈ refsOf f, ∀ x ∈ hid, x.name ≠ n)
+    {isLast : Bool} (hwf : wfFieldAt S d (hid ++ pre) f isLast = true) (hg : wfgdKind f = true) (hgc : wfgdCond S d f = true)
+    (hearly : refOk (hid ++ pre) c.field (discKindOk c) = true)
     {sm : Option String} (hsm : (sm == some (printerName f.name)) = true ↔ ∃ w, f.kind = .sizeF w)
     {d' : StructDef} {idx : Nat} (hreb : rebase d' st idx = st)
     (hstep : decFieldStep S T r d' st idx f = .ok st') :
-    ∃ σ', (desFieldAst S d sm f none).exec S T r σ = .ok σ' ∧ Sim σ' st' (pre ++ [f]) ∧ st'.queued = st.queued ∧
-      σ'.bufs = σ.bufs := by
+    ∃ σ', (desFieldAst S d sm f none).exec S T r σ = .ok σ' ∧ Sim σ' st' hid (pre ++ [f]) ∧ st'.queued = st.queued ∧
+      σ'.bufs = σ.bufs ∧ (∀ n, n ≠ localName f → σ'.get n = σ.get n) := by
   -- a conditional member is not the size member, so its local is its attribute name
   have hnsz : ∀ w, f.kind ≠ .sizeF w := by
     intro w hk
@@ -278,6 +293,7 @@ theorem cond_sim {σ : PyState} {st st' : DecState} {pre : List Field} (hS : Sim
   unfold decCondField at hstep
   -- the discriminant
   unfold refOk at hearly
+  rw [lookupField_hid (hvis c.field (by simp [refsOf, hc]))] at hearly
   cases hl : lookupField pre c.field with
   | none => simp [hl] at hearly
   | some gk =>
@@ -300,7 +316,7 @@ theorem cond_sim {σ : PyState} {st st' : DecState} {pre : List Field} (hS : Sim
         rw [hlocg] at this
         unfold PyState.getInt; rw [this]
       -- `attr = None`
-      have hS0 : Sim (σ.set (printerName f.name) .none) st pre :=
+      have hS0 : Sim (σ.set (printerName f.name) .none) st hid pre :=
         hS.set_fresh .none (fun x hx => by rw [← hattr]; exact hfresh x hx)
       have hgi0 : (σ.set (printerName f.name) .none).getInt (fixSizeName (printerName c.field)) = .ok a := by
         unfold PyState.getInt at hgi ⊢
@@ -322,7 +338,7 @@ theorem cond_sim {σ : PyState} {st st' : DecState} {pre : List Field} (hS : Sim
       | false =>
         simp only [Bool.false_eq_true, if_false, pure, Except.pure, Except.ok.injEq] at hstep ⊢
         subst hstep
-        refine ⟨_, rfl, ?_, rfl, rfl⟩
+        refine ⟨_, rfl, ?_, rfl, rfl, fun n hn => frame_set' _ _ _ _ (by rw [← hattr]; exact hn)⟩
         apply hS.snoc (v := .none) rfl
         · exact hS.buf
         · intro x hx
@@ -338,10 +354,11 @@ theorem cond_sim {σ : PyState} {st st' : DecState} {pre : List Field} (hS : Sim
         obtain ⟨⟨v, adv⟩, hpay, hstep⟩ := bind_eq_ok.mp hstep
         simp only [pure, Except.pure, Except.ok.injEq] at hstep
         subst hstep
-        obtain ⟨hload, hadv⟩ := payload_sim (T := T) hS0 hnn hfresh hwf hg (src := srcOf f "buffer")
+        obtain ⟨hload, hadv⟩ := payload_sim (T := T) hS0 hnn hfresh hvis hwf hg (src := srcOf f "buffer")
           (by intro ty l hk; simp [srcOf, hk]) (by intro ty hk; simp [srcOf, hk]) hpay
         have hbound := fun hb => payload_bound hpay hg hb
-        refine ⟨{ (σ.set (printerName f.name) .none).set (localName f) v with buffer := st.buf.drop adv }, ?_, ?_, rfl, rfl⟩
+        refine ⟨{ (σ.set (printerName f.name) .none).set (localName f) v with buffer := st.buf.drop adv }, ?_, ?_, rfl, rfl,
+          fun n hn => by rw [frame_set _ _ _ _ _ hn]; exact frame_set' _ _ _ _ (by rw [← hattr]; exact hn)⟩
         · simp only [hsm', Bool.false_eq_true, if_false]
           have hcore : execStmts S T r
               [DesStmt.assign (fixSizeName (printerName f.name)) (loadAst S f (srcOf f "buffer")),
